@@ -196,6 +196,11 @@ def case_lazy(rng: Any, ctx: Ctx, index: int) -> None:
     if cond > 50 or not np.allclose(m, m.T):
         LOG.count('C06.driver', 'not-well-conditioned-spd')
         return
+    if name == 'BiCGStab' and len(np.unique(np.round(np.linalg.eigvalsh(m), 5))) < len(m):
+        # lineax's BiCGStab breaks down (NaN) when it converges in fewer steps than expected: repeated eigenvalues
+        # (a multiple of the identity: every right-hand side is an eigenvector) are not paired with it (DESIGN §7.2)
+        LOG.count('C06.driver', 'bicgstab-repeated-eigenvalues')
+        return
     f32 = any(np.dtype(l.dtype).itemsize < 8 for l in dense.leaves(s))
     tol = max(TOLS[name], 3e-6 if f32 else 0)
     mk = SOLVERS[name]
